@@ -124,11 +124,6 @@ def infixHandle : List Sexp → Option Sexp
 
 end PP.Driver.IX
 
-namespace PP.Driver.InfixD
-def infixHandle := IX.infixHandle
-end PP.Driver.InfixD
-
 namespace PP.Driver
-def infixHandle := InfixD.infixHandle
-def infixHandle := InfixD.infixHandle
+def infixHandle := IX.infixHandle
 end PP.Driver
